@@ -81,20 +81,39 @@ def run(ctx) -> None:
                 if k:
                     consumed.add(k)
     ctx.floor("R2", "keys consumed by the normaliser", len(consumed), 11)
-    cfg_src = unparse(readers["cfg"].node)
-    toml_src = unparse(readers["toml"].node)
-    wholesale_cfg = "dict(cfg_parser.items('bumpver'))" in cfg_src and "dict(cfg_parser.items('pycalver'))" in cfg_src
-    wholesale_toml = "raw_full_cfg['tool']['bumpver']" in toml_src and "raw_full_cfg['bumpver']" in toml_src
-    ctx.check("R2", wholesale_cfg, "INI reader copies the whole section: dict(cfg_parser.items(section))", "config._parse_cfg: section keys are not copied wholesale", "", loc=readers["cfg"].loc())
-    ctx.check("R2", wholesale_toml, "TOML reader takes the whole section table", "config._parse_toml: section keys are not taken wholesale", "", loc=readers["toml"].loc())
+    def whole_section_assigns(fn, recv_pred) -> T.Set[str]:
+        out = set()
+        for n in ast.walk(fn.node):
+            if isinstance(n, ast.Assign) and unparse(n.targets[0]) == "raw_cfg":
+                v = n.value
+                if isinstance(v, ast.Call) and unparse(v.func) == "dict" and v.args and isinstance(v.args[0], ast.Call) and unparse(v.args[0].func) == "cfg_parser.items" \
+                        and v.args[0].args and const_str(v.args[0].args[0]):
+                    out.add(const_str(v.args[0].args[0]))
+                elif isinstance(v, ast.Subscript):
+                    path = []
+                    e = v
+                    while isinstance(e, ast.Subscript):
+                        path.append(const_str(e.slice))
+                        e = e.value
+                    if unparse(e) == "raw_full_cfg" and all(path):
+                        out.add(".".join(reversed(path)))
+        return out
+    cfg_whole = whole_section_assigns(readers["cfg"], None)
+    toml_whole = whole_section_assigns(readers["toml"], None)
+    wholesale_cfg = cfg_whole == {"bumpver", "pycalver"}
+    wholesale_toml = toml_whole == {"tool.bumpver", "bumpver", "pycalver"}
+    ctx.check("R2", wholesale_cfg, "INI reader copies the whole section: dict(cfg_parser.items(section))", "config._parse_cfg: section keys are not copied wholesale", f"{sorted(cfg_whole)}", loc=readers["cfg"].loc())
+    ctx.check("R2", wholesale_toml, "TOML reader takes the whole section table", "config._parse_toml: section keys are not taken wholesale", f"{sorted(toml_whole)}", loc=readers["toml"].loc())
     special = {"file_patterns", "commit", "tag", "push"}
     for k in sorted(consumed):
         if k in ("commit", "tag", "push"):
             ctx.ok("R2", f"key '{k}': set by the shared BOOL_OPTIONS loop in both readers")
         elif k == "file_patterns":
-            ok = "raw_cfg['file_patterns'] = dict(_parse_cfg_file_patterns(cfg_parser))" in cfg_src
-            sd = unparse(prog.function("config._set_raw_config_defaults").node)
-            ok = ok and "raw_cfg['file_patterns'] = {}" in sd
+            fp_ini = [n for n in ast.walk(readers["cfg"].node) if isinstance(n, ast.Assign) and unparse(n.targets[0]).replace('"', "'") == "raw_cfg['file_patterns']"
+                      and any(isinstance(c, ast.Call) and unparse(c.func) == "_parse_cfg_file_patterns" for c in ast.walk(n.value))]
+            sdf = prog.function("config._set_raw_config_defaults")
+            fp_def = [n for n in ast.walk(sdf.node) if isinstance(n, ast.Assign) and unparse(n.targets[0]).replace('"', "'") == "raw_cfg['file_patterns']" and isinstance(n.value, ast.Dict) and not n.value.keys]
+            ok = len(fp_ini) == 1 and len(fp_def) == 1
             ctx.check("R2", ok, "key 'file_patterns': INI from the :file_patterns section, TOML from the nested table, default {}", "config: file_patterns not provided by both readers", "", loc="src/bumpver/config.py")
         else:
             ctx.ok("R2", f"key '{k}': copied wholesale from the section by both readers")
@@ -182,5 +201,6 @@ def run(ctx) -> None:
         ctx.check("R4", f in kws and unparse(kws[f]) == f, f"Config({f}={f})", f"config._parse_config: Config.{f} is filled from another value", unparse(kws.get(f, ast.Constant(None))), loc=pcf.loc(ctor[0]))
     # strings are stripped identically for both formats (quotes in INI values)
     for k in ("commit_message", "tag_message", "current_version", "version_pattern"):
-        ok = f"{k}.strip('\\'\" ')" in unparse(pcf.node)
+        ok = any(isinstance(c, ast.Call) and isinstance(c.func, ast.Attribute) and c.func.attr == "strip" and unparse(c.func.value) == k and c.args
+                 and const_str(c.args[0]) is not None and {"'", '"'} <= set(const_str(c.args[0])) for c in ast.walk(pcf.node))
         ctx.check("R4", ok, f"_parse_config strips quotes/spaces from {k} (INI values keep their quotes)", f"config._parse_config: {k} is not quote-stripped (INI and TOML would differ)", "", loc=pcf.loc())
